@@ -140,6 +140,7 @@ func runC12(r *Run, rng *Rng, thorough bool) {
 	})
 	jtextCases(r, rng, map[bool]int{false: 1500, true: 60000}[thorough])
 	extJSON(r, rng, map[bool]int{false: 400, true: 10000}[thorough])
+	richExt(r, rng, 300, map[string]string{"json": "json-roundtrip", "chain": "cbor-json-cbor"})
 	evidenceJSON(r, rng, map[bool]int{false: 60, true: 1500}[thorough])
 	decodedThenChanged(r, rng, map[bool]int{false: 150, true: 4000}[thorough])
 }
